@@ -226,6 +226,11 @@ def gen_spec(rng, mode):
         spec['seed_fail'] = rng.random() < 0.3
         spec['fill'] = rng.choice([1.0, 1.0, 0.8, 0.6])
         spec['mixed'] = rng.random() < 0.25
+        if spec['seed_fail']:
+            # exactly one stale meta tile: the single worker dies on it and nothing else is queued behind it
+            spec['fill'] = 1.0
+            spec['cache_rule'] = None
+            spec['mixed'] = False
     return spec
 
 
@@ -329,6 +334,8 @@ def gen_seed_ops(rng, spec):
         tiles = gi.block_tiles(b)
         if spec['seed_fail']:
             d = rng.choice([-3600, -1, 0]) if b == only_stale else rng.choice([1, 3600, 3600, None])
+            if spec['rule']['kind'] == 'age':
+                d = -3600 if b == only_stale else rng.choice([3600, None])
             if b != only_stale and rng.random() > spec['fill']:
                 d = 'missing'
         else:
@@ -942,8 +949,15 @@ def patch_seeder():
                      ignore_exceptions=tuple(), max_backoff=60):
         return real_backoff(func, args=args, kw=kw, max_repeat=3, start_backoff_sec=0, exceptions=exceptions,
                             ignore_exceptions=ignore_exceptions, max_backoff=0)
+    class FastQueue(queue.Queue):
+        # TileWorkerPool.process polls with put(timeout=5) to notice dead workers; poll faster, same semantics
+        def put(self, item, block=True, timeout=None):
+            if timeout is not None:
+                timeout = min(timeout, 0.1)
+            return queue.Queue.put(self, item, block, timeout)
+
     seeder.TileSeedWorker = ThreadSeedWorker
-    seeder.queue_class = queue.Queue
+    seeder.queue_class = FastQueue
     seeder.exp_backoff = fast_backoff
     _SEED_PATCHED = True
 
